@@ -80,8 +80,10 @@ func ParseOne(b []byte) (*Parsed, int, error) {
 		return p, 0, fmt.Errorf("data size %d exceeds the %d bytes that follow the header", p.DataSize, len(b)-hs)
 	}
 	p.FileCRC = binary.LittleEndian.Uint16(b[end : end+2])
+	var crcErr error
 	if want := CRC(b[:end]); want != p.FileCRC {
-		return p, 0, fmt.Errorf("file CRC %#04x, computed %#04x", p.FileCRC, want)
+		// reported after the records were parsed, so that callers can still see the structure
+		crcErr = fmt.Errorf("file CRC %#04x, computed %#04x", p.FileCRC, want)
 	}
 	var slots [16]*ParsedDef
 	pos := hs
@@ -198,6 +200,9 @@ func ParseOne(b []byte) (*Parsed, int, error) {
 	}
 	if pos != end {
 		return p, 0, fmt.Errorf("records end at %d, data area ends at %d", pos, end)
+	}
+	if crcErr != nil {
+		return p, end + 2, crcErr
 	}
 	return p, end + 2, nil
 }
